@@ -142,6 +142,8 @@ def check(ctx):
             ctx.holds("C04-R6", fn, rel, q, "no truth test / `or` default on resSeq/serial/order/element", "")
 
     _dataframe(ctx)
+    r1_bond_type_codec(ctx)
+    r1_element_identity(ctx)
     _hdf5(ctx)
     _r3(ctx)
     _r5(ctx)
@@ -669,3 +671,82 @@ def r3_order_insensitive_hash(ctx):
                 bad.append(u)
         ctx.decide(bool(uses) and not bad, "C04-R3", bad[0] if bad else hs, TOP, "Topology.__hash__", "`%s` is compared after sorting, so it is hashed order-insensitively" % f, "",
                    "Topology.__eq__ compares `%s` after sorting but Topology.__hash__ hashes them in list order: two topologies whose %s were added in a different order compare equal and hash differently" % (f, f))
+
+
+def r1_bond_type_codec(ctx):
+    """Bond types travel through data frames / HDF5 tables as floats: the codes of the types are pairwise distinct, the decoder tries every type
+    that has a code, and it compares the stored value *as it is* - rounding or truncating it first merges codes (Amide 1.25 -> 1.2 matches nothing)."""
+    m = ctx.py.mod(TOP)
+    codes = {}
+    for q, fn in m.functions.items():
+        if q.endswith(".__float__") and q.count(".") == 1:
+            rets = [n for n in walk_no_nested(fn) if isinstance(n, ast.Return) and n.value is not None]
+            v = const(rets[0].value) if len(rets) == 1 else None
+            codes[q.split(".")[0]] = v
+    dec = m.functions.get("float_to_bond_type")
+    if dec is None or not codes:
+        ctx.undecided("C04-R1", m.tree, TOP, "float_to_bond_type", "bond type codec", "decoder or __float__ methods not found")
+        return
+    vals = [v for v in codes.values()]
+    ctx.decide(all(isinstance(v, (int, float)) for v in vals) and len(set(vals)) == len(vals), "C04-R1", dec, TOP, "float_to_bond_type", "bond type codes %s are pairwise distinct constants" % sorted(codes.items(), key=str), "",
+               "two bond types share a float code or a code is not a constant: %s" % codes)
+    lists = [n for n in walk_no_nested(dec) if isinstance(n, (ast.List, ast.Tuple)) and n.elts and all(isinstance(e, ast.Name) for e in n.elts)]
+    listed = {e.id for n in lists for e in n.elts}
+    ctx.decide(set(codes) <= listed, "C04-R1", lists[0] if lists else dec, TOP, "float_to_bond_type", "the decoder tries every bond type that has a float code", "", "bond types with a code that the decoder never tries: %s" % sorted(set(codes) - listed))
+    ps = params(dec)
+    cmps = [n for n in walk_no_nested(dec) if isinstance(n, ast.Compare) and len(n.ops) == 1 and isinstance(n.ops[0], ast.Eq)]
+    cfg = CFG(dec)
+    defs = Defs(cfg)
+    ok, why = bool(cmps), "no equality test found"
+    for c in cmps:
+        node = cfg.node_containing(c)
+        for side in (c.left, c.comparators[0]):
+            ds = deps(side, node, defs)
+            if ps and ps[0] in ds:
+                # the stored value reaches the comparison through float() only
+                bad = [x for x in ast.walk(side) if isinstance(x, (ast.BinOp, ast.Call)) and not (isinstance(x, ast.Call) and call_name(x) == "float")]
+                chain = []
+                if isinstance(side, ast.Name):
+                    for df in defs.reaching(node, side.id):
+                        if df.value is not None:
+                            chain += [x for x in ast.walk(df.value) if isinstance(x, (ast.BinOp, ast.Call)) and not (isinstance(x, ast.Call) and call_name(x) == "float")]
+                if bad or chain:
+                    ok, why = False, "the stored value is transformed by `%s` before it is compared with the codes" % src((bad or chain)[0])
+    ctx.decide(ok, "C04-R1", cmps[0] if cmps else dec, TOP, "float_to_bond_type", "the stored float is compared with the codes as it is (through float() only)", "", why + ": codes that differ below the rounding step (1.25 vs 1.0 / 1.5) decode to the wrong type or to None")
+
+
+def r1_element_identity(ctx):
+    """deepcopy / pickle of a Topology recreate its elements through Element.__reduce__.  Elements are singletons looked up by a key on load:
+    the key must tell all elements of the table apart (the name does; the atomic number does not - deuterium shares 1 with hydrogen)."""
+    EL = "mdtraj/core/element.py"
+    m = ctx.py.mod(EL)
+    ctx.analysed_files.add(EL)
+    red = m.functions.get("Element.__reduce__")
+    init = m.functions.get("Element.__init__") or m.functions.get("Element.__new__")
+    if red is None or init is None:
+        ctx.undecided("C04-R1", m.tree, EL, "Element.__reduce__", "singleton key", "Element.__reduce__ / constructor not found")
+        return
+    fields = [p for p in params(init) if p not in ("self", "cls")]
+    table = []
+    for st in m.tree.body:
+        if isinstance(st, ast.Assign) and isinstance(st.value, ast.Call) and call_name(st.value) == "Element" and isinstance(st.targets[0], ast.Name):
+            vals = [const(a) if isinstance(a, ast.Constant) else src(a) for a in st.value.args]
+            table.append((st.targets[0].id, dict(zip(fields, vals))))
+    if len(table) < 100:
+        raise AnalysisError("element table: only %d entries found" % len(table))
+    rets = [n for n in walk_no_nested(red) if isinstance(n, ast.Return) and n.value is not None]
+    used = sorted({a.attr for r in rets for a in ast.walk(r.value) if isinstance(a, ast.Attribute) and isinstance(a.value, ast.Name) and a.value.id == "self"})
+    if not used:
+        ctx.undecided("C04-R1", red, EL, "Element.__reduce__", "singleton key", "no field of self in the value returned")
+        return
+    keyf = [f for f in used if f in fields or f == "atomic_number" and "number" in fields]
+    col = lambda f: "number" if f == "atomic_number" and "number" in fields and f not in fields else f      # noqa: E731
+    keys = [tuple(row.get(col(f)) for f in keyf) for _, row in table]
+    dup = sorted({k for k in keys if keys.count(k) > 1}, key=str)
+    ok = bool(keyf) and not dup
+    if ok and used == ["name"]:
+        # a bare string is resolved as a module attribute: the attribute must be spelled like the name
+        alias = {st.targets[0].id: st.value.id for st in m.tree.body if isinstance(st, ast.Assign) and isinstance(st.targets[0], ast.Name) and isinstance(st.value, ast.Name)}
+        ok = all(nm == row.get("name") or alias.get(row.get("name")) == nm for nm, row in table)
+    ctx.decide(ok, "C04-R1", red, EL, "Element.__reduce__", "elements are re-created from `%s`, which is unique in the table of %d elements" % (", ".join(used), len(table)), "",
+               "the key `%s` does not tell the elements apart (%s): a deep-copied or unpickled topology has the first element registered under that key in place of the original" % (", ".join(used), [k for k in dup][:3] if dup else "module attribute and name differ"))
